@@ -6,6 +6,7 @@ package openapi3filter
 import (
 	"context"
 	"net/http"
+	"net/url"
 
 	"github.com/getkin/kin-openapi/openapi3"
 )
@@ -128,3 +129,63 @@ func verifH_C08_content_type_header_definition() {
 	verifAssert((err == nil) == (ct == "text/plain"), "C08 Content-Type definition: a header definition named Content-Type is ignored, whatever its spelling; the content type is judged by the declared content")
 	verifReach("end")
 }
+
+// verifRepeatedHeader: a header sent on one or two lines, items with or without white space after the
+// comma; on the request side (a header parameter) and on the response side (a response header).
+func verifRepeatedHeader(id string, response bool) {
+	kind := verifChoose("schema", 2) // 0: integer, 1: array of integers with maxItems symbolic
+	maxItems := uint64(verifChoose("maxItems", 4))
+	schema := &openapi3.Schema{Type: &openapi3.Types{"integer"}}
+	if kind == 1 {
+		schema = &openapi3.Schema{Type: &openapi3.Types{"array"}, Items: &openapi3.SchemaRef{Value: &openapi3.Schema{Type: &openapi3.Types{"integer"}}}, MaxItems: &maxItems}
+	}
+	// the lines, and what they say: the list of items (an item "x" is not an integer)
+	type sent struct {
+		lines []string
+		items []string
+	}
+	cases := []sent{
+		{[]string{"1"}, []string{"1"}},
+		{[]string{"1", "2"}, []string{"1", "2"}},
+		{[]string{"1", "x"}, []string{"1", "x"}},
+		{[]string{"1,2"}, []string{"1", "2"}},
+		{[]string{"1, 2"}, []string{"1", "2"}},
+		{[]string{"1 ,2", "3"}, []string{"1", "2", "3"}},
+		{[]string{"1,x"}, []string{"1", "x"}},
+		{[]string{"x", "1"}, []string{"x", "1"}},
+	}
+	c := cases[verifChoose("lines", len(cases))]
+	allInts := true
+	for _, it := range c.items {
+		if it == "x" {
+			allInts = false
+		}
+	}
+	want := allInts && (kind == 1 && uint64(len(c.items)) <= maxItems || kind == 0 && len(c.items) == 1)
+	var err error
+	if response {
+		d := "d"
+		resps := openapi3.NewResponsesWithCapacity(1)
+		resps.Set("200", &openapi3.ResponseRef{Value: &openapi3.Response{Description: &d, Headers: openapi3.Headers{"X-N": {Value: &openapi3.Header{Parameter: openapi3.Parameter{Required: true, Schema: &openapi3.SchemaRef{Value: schema}}}}}}})
+		op := &openapi3.Operation{Responses: resps}
+		in := verifRespInput(op, "GET", 200, http.Header{"X-N": c.lines}, nil, &Options{})
+		err = ValidateResponse(context.Background(), in)
+	} else {
+		param := &openapi3.Parameter{Name: "X-N", In: "header", Required: true, Schema: &openapi3.SchemaRef{Value: schema}}
+		input := &RequestValidationInput{Request: &http.Request{Method: "GET", Header: http.Header{"X-N": c.lines}, URL: &url.URL{Path: "/"}}, QueryParams: url.Values{}, PathParams: map[string]string{}, Options: &Options{}}
+		err = ValidateParameter(context.Background(), input, param)
+	}
+	if err == nil {
+		verifReach("accepted")
+	} else {
+		verifReach("rejected")
+	}
+	verifAssert((err == nil) == want, id+" repeated header: the lines of a header field are one comma-separated list (white space around an item is not part of it); it passes exactly when that list satisfies the schema")
+	verifReach("end")
+}
+
+//verif:harness id=C08 tier=quick,thorough witness=end,accepted,rejected bounds="a response header sent on one or two lines (1 | 1 + 2 | 1 + x | 1,2 | '1, 2' | '1 ,2' + 3 | 1,x | x + 1) against integer, or array of integers with maxItems symbolic 0..3: the lines are one comma-separated list; the response passes exactly when that list satisfies the schema (every line counts, not only the first)"
+func verifH_C08_repeated_header_lines() { verifRepeatedHeader("C08", true) }
+
+//verif:harness id=C05 tier=quick,thorough witness=end,accepted,rejected bounds="as C08's repeated_header_lines for a header parameter of a request (shared)"
+func verifH_C05_repeated_header_lines() { verifRepeatedHeader("C05", false) }
